@@ -186,7 +186,9 @@ def impl_inproc(case):
                     # whatever ran earlier may have changed numpy's process-wide print settings (a common notebook habit)
                     np.set_printoptions(suppress=True, precision=3, sign=" ", floatmode="fixed", linewidth=40, threshold=5)
                 o = d / f"ph{k}.pheno"
-                simulate_pt(d / "gts.vcf", d / "eff.snplist", num_replications=case["R"], seed=case["seed"], output=o, log=SD.silent_log(), **pheno_kwargs(cfg))
+                # the same integer, as a Python int in one run and as a numpy integer in the other (what a seed taken from an array is)
+                sd = case["seed"] if k == 0 else [np.int64, np.uint32, np.uint64][ci % 3](case["seed"])
+                simulate_pt(d / "gts.vcf", d / "eff.snplist", num_replications=case["R"], seed=sd, output=o, log=SD.silent_log(), **pheno_kwargs(cfg))
                 ph.append(open(o, "rb").read())
                 np.set_printoptions(**saved)
             if ph[0] != ph[1]:
@@ -357,6 +359,64 @@ def oracle_requests(case, obs):
     return None
 
 
+# ------------------------------------------------------------------ replications are independent draws
+def gen_indep(rng, tier):
+    for t in range(2 if tier == "quick" else 8):
+        yield {"seed": SEEDS[(t + 2) % len(SEEDS)], "inputs": rng.randrange(2**31), "R": 3 + t % 2, "via": "cli" if t % 2 else "api", "h2": [0.5, 0.3][t % 2]}
+
+
+def impl_indep(case):
+    """a cohort large enough to see dependence: the noise of every replication (phenotype minus the noise-free phenotype of the same
+    cohort) must be uncorrelated with the noise of every other one and of the same size"""
+    import random
+
+    from click.testing import CliRunner
+    from haptools.__main__ import main
+    from haptools.data import Phenotypes
+    from haptools.sim_phenotype import simulate_pt
+
+    d = _dir / "i"
+    C.rm_tree(d)
+    d.mkdir(parents=True)
+    rnd = random.Random(case["inputs"])
+    n = 1500
+    snps = [(f"rs{j}", "1", 10 * (j + 1), ["A", "C"]) for j in range(4)]
+    data = [[(int(rnd.random() < 0.4), int(rnd.random() < 0.4), 1) for _ in snps] for _ in range(n)]
+    GF.write_vcf_text(d / "big.vcf", [f"s{i}" for i in range(n)], snps, data)
+    open(d / "eff.snplist", "w").write("".join(f"rs{j}\t{0.2 * (j + 1):.1f}\n" for j in range(4)))
+
+    def run(out, R, h2):
+        if case["via"] == "cli":
+            r = CliRunner().invoke(main, ["simphenotype", "--seed", str(case["seed"]), "-r", str(R), "--heritability", str(h2), "-o", str(out), str(d / "big.vcf"), str(d / "eff.snplist")], catch_exceptions=True)
+            if r.exit_code != 0:
+                raise ValueError(f"simphenotype exited with {r.exit_code}: {(str(r.exception) or r.output)[-200:]}")
+        else:
+            simulate_pt(d / "big.vcf", d / "eff.snplist", num_replications=R, heritability=h2, seed=case["seed"], output=out, log=SD.silent_log())
+        p = Phenotypes(out, log=SD.silent_log())
+        p.read()
+        return np.asarray(p.data, dtype=np.float64)
+
+    y = run(d / "rep.pheno", case["R"], case["h2"])
+    g = run(d / "gen.pheno", 1, 1.0)[:, 0]
+    noise = y - g[:, None]
+    cc = np.corrcoef(noise.T)
+    sds = noise.std(axis=0)
+    return {"columns": int(y.shape[1]), "max_abs_corr": float(np.max(np.abs(cc - np.eye(cc.shape[0])))), "noise_sd": [float(x) for x in sds], "documented_sd": float(np.sqrt(np.var(g) * (1 / case["h2"] - 1)))}
+
+
+def oracle_indep(case, obs):
+    if "error" in obs:
+        return f"simphenotype failed: {obs}"
+    if obs["columns"] != case["R"]:
+        return f"{obs['columns']} columns for {case['R']} replications"
+    # 1500 samples: the correlation of two independent noise vectors has standard deviation 0.026; sizes agree within a few per cent
+    if obs["max_abs_corr"] > 0.15:
+        return f"the noise terms of two replications of one run correlate with r = {obs['max_abs_corr']:.3f} over 1500 samples: not independent draws"
+    if max(obs["noise_sd"]) > 1.15 * min(obs["noise_sd"]) or not (0.9 * obs["documented_sd"] <= min(obs["noise_sd"]) and max(obs["noise_sd"]) <= 1.1 * obs["documented_sd"]):
+        return f"the noise of the replications has standard deviations {obs['noise_sd']}; documented (and equal for every replication): {obs['documented_sd']:.4f}"
+    return None
+
+
 CHECK = Check(
     id="C10",
     title="A seed makes simgenotype and simphenotype reproducible",
@@ -385,6 +445,18 @@ CHECK = Check(
             nontrivial=lambda c, o: C.jdump(c),
             describe=lambda c, o: [f"seed={c['seed']}"] + (["sample-info-names-samples-twice"] if c.get("dup_info") else []),
             rule="simgenotype and simphenotype (with an --id subset of a .snplist) through the CLI in three fresh interpreter processes per case with different PYTHONHASHSEED values and different prior use of the global generator; in half of the cases the sample-info file names some reference samples twice; .bp, VCF content and .pheno must be identical",
+        ),
+        Section(
+            name="replications_are_independent",
+            theorems=["C10.replications_distinct_stream_positions"],
+            gen=gen_indep,
+            impl=impl_indep,
+            oracle=oracle_indep,
+            setup=setup,
+            teardown=teardown,
+            nontrivial=lambda c, o: C.jdump(c),
+            describe=lambda c, o: [f"seed={c['seed']}", c["via"], f"R={c['R']}"],
+            rule="a cohort of 1500 samples, 3-4 replications with heritability 0.5 / 0.3 (API and click runner): the noise of each replication (phenotype minus the noise-free phenotype of the same cohort, obtained with heritability 1) is uncorrelated with every other replication's (|r| < 0.15, six standard deviations) and has the documented size in every replication (within 10%)",
         ),
         Section(
             name="generator_requests",
